@@ -265,6 +265,19 @@ def text_columns(repo, res):
             raise AnalysisError(f"{fn.where(st)}: unit selection not understood: {norm(st)[:80]}")
     # savetxt: header units and data columns from the same sequence
     sv = arr.func("savetxt")
+    # writer and reader share their format parameters: a file written with the defaults must be readable with the
+    # defaults (delimiter, comment marker)
+
+    def _defaults(f_):
+        a_ = f_.node.args
+        names_ = [x.arg for x in a_.posonlyargs + a_.args]
+        d_ = dict(zip(names_[::-1], a_.defaults[::-1]))
+        return {k: v.value for k, v in d_.items() if isinstance(v, ast.Constant)}
+
+    dw, dr = _defaults(sv), _defaults(fn)
+    for prm in ("delimiter", "comments"):
+        if prm in sv.params and prm in fn.params:
+            res.check(prm in dw and prm in dr and dw[prm] == dr[prm], f"defaults-agree:{prm}", sv.where(), f"savetxt and loadtxt have different defaults for `{prm}` ({dw.get(prm)!r} vs {dr.get(prm)!r}): a file written with the defaults is not read back with the defaults (unit line not recognised / columns not split)", repr(dr.get(prm)), repr(dw.get(prm)), rid=r5)
     res.fn(sv)
     a = sv.params[1]
     loops = [n for n in sv.body if isinstance(n, ast.For) and norm(n.iter) == a]
